@@ -175,8 +175,10 @@ Proof.
   - destruct (lookup ptr (items g)) as [it|] eqn:L; [|now apply benign_set_precond].
     destruct (_ && _) eqn:PRE; [|now apply benign_set_precond].
     unfold gc_realloc. destruct (newptr =? 0) eqn:N0; [now left|]. unfold reregister. rewrite N0.
-    destruct ((ptr =? 0) || false || (newsize <=? 0)); [now apply benign_set_precond|].
     apply andb_prop in PRE. destruct PRE as [PRE FRq]. repeat (apply andb_prop in PRE; destruct PRE as [PRE ?]).
+    (* the collector's own check(oldptr ~= nilptr and newptr ~= nilptr and newsize > 0) cannot fail *)
+    assert (CK : ((ptr =? 0) || false || (newsize <=? 0)) = false) by (apply orb_false_iff; split; [apply orb_false_iff; split; auto; lia | lia]).
+    rewrite CK.
     destruct (newptr =? ptr) eqn:SAME.
     + rewrite L. left. destruct (isize it <? newsize).
       * match goal with |- err (if _ then step _ ?G else ?G) = _ => set (G0 := G) end.
